@@ -29,8 +29,9 @@ class Binding:
     def make_session(self, cfgi, m, path=None):
         ms = path if path is not None else ([m] if m is not None else [])
         needbig = any(x.name == 'IA_Call' and x.args[1].get('kind') == 'write' for x in ms)
-        cfgs = self.big if needbig else self.configs
-        cfg = cfgs[cfgi % len(cfgs)]
+        cfg = self.configs[cfgi % len(self.configs)]
+        if needbig and (cfg.rowbytes < 4 or cfgi % 3 == 0):
+            cfg = self.big[cfgi % len(self.big)]
         # a fresh Config object per session: register() mutates the decode table
         c = Config(*cfg.key()[:3], form=cfg.form, valset=cfg.valset, iterform=cfg.iterform)
         return Sess(c, metaset=cfgi // 3, keyset=cfgi // 5)
